@@ -144,7 +144,7 @@ func (w *World) passiveOpen(r *hx.Run, sport uint16) *conn {
 }
 
 func (w *World) transfer(r *hx.Run, c *conn, sport uint16, steps int) {
-	rtoBudget := 2
+	rtoBudget := 4
 	for k := 0; k < steps; k++ {
 		from := len(w.Seen)
 		wnd := uint16([]int{65535, 65535, 30000, 5000, 1460, 536, 1, 0}[r.R.Intn(8)])
@@ -295,6 +295,7 @@ func (w *World) zeroWindow(r *hx.Run, c *conn, sport uint16) {
 	r.R.Read(b)
 	w.Write(c.id, b)
 	w.RTO(c.id, 1500)
+	w.RTO(c.id, 1500)
 	from := len(w.Seen)
 	w.Seg(sport, LPort, 16, c.pSeq, c.sNxt, 30000, c.opts(r), nil) // the window update gets through after all
 	w.observe(c, from)
@@ -335,9 +336,9 @@ func (w *World) lossEpisode(r *hx.Run, c *conn, sport uint16) {
 
 // Gen generates histories; focus (a property id) shifts the mixture towards what that property speaks about.
 func Gen(r *hx.Run, focus string) {
-	nh := r.Pick(60, 400)
+	nh := r.Pick(150, 1500)
 	if focus == "C03" {
-		nh = r.Pick(150, 1500)
+		nh = r.Pick(300, 4000)
 	}
 	if v := os.Getenv("TCP_NH"); v != "" {
 		fmt.Sscan(v, &nh)
